@@ -125,11 +125,29 @@ ROUND5 = {
  "C19": " Completion cases: during the outage P delivers every piece, the client drops P, the extractor runs and finishes while the tracker task still retries; a leecher probes that the manager keeps serving.",
 }
 
+# additions after the sixth round of seeded changes (and the file-system seam)
+ROUND6 = {
+ "C01": " One honest in-memory download of two pieces of 2 MiB + 16 KiB + 5 bytes; the borrowed gated scenario contains fw events (a replacement of an existing piece file held before its rename, hooks 11-13).",
+ "C02": " fw events (file-system seam) in gated scenarios; big-swarm cases (15 connections, 10..13 interesting, a tracker answer arrives); a download with pieces over 2 MiB; view-run replays (every ungated scenario's fair continuation through Session::run() with the progress view, in a subprocess); binary peer ids.",
+ "C04": " Components are also joined by backslashes and by '/' with a backslash before the last component.",
+ "C05": " Sibling keys a:info / comment / infoo / z:info.",
+ "C06": " The loopback replays run the receiver as its own task; a real-socket outcome that differs from the reference-judged in-memory outcome is a violation (socket-path-decodes-differently).",
+ "C08": " -crowded variants: ten slot holders, rates reported, R (one real rotation) during the handshake phase.",
+ "C09": " One real-socket run under back-pressure through the accept path: 1024 pipelined requests read late, all 1024 Piece frames judged.",
+ "C10": " Q: the peer's own (refused) request in the middle of its upload to us.",
+ "C11": " -rotate: the observer holds one of our slots, R chokes it while announcements are held back.",
+ "C12": " Three real-socket exchanges: a holder that dialled in ends its stream at a message boundary / inside a Piece message / inside a length prefix; peer and reservation must be gone 1.5 s later.",
+ "C15": " Strings of 255 .. 2^21+1 bytes in four positions.",
+ "C18": " Nine announce URLs incl. upper/mixed-case scheme and host, IPv6 and IPv4 literals.",
+ "C19": " Binary peer ids in scripted replies; a first good reply that does not lead to connections is a verdict.",
+ "C20": " Pause/Resume of the manager (busy manager) as timed symbols; judged at the first slot after it resumed.",
+}
+
 def main():
     checks = []
     for pid in sorted(CHECKS):
         level, technique, engine, text, note, ref = CHECKS[pid]
-        text = text + ROUND3.get(pid, "") + ROUND4.get(pid, "") + ROUND5.get(pid, "") + ROUND5B.get(pid, "")
+        text = text + ROUND3.get(pid, "") + ROUND4.get(pid, "") + ROUND5.get(pid, "") + ROUND5B.get(pid, "") + ROUND6.get(pid, "")
         checks.append({
             "property_id": pid,
             "quick_cmd": "./check %s --tier quick" % pid,
